@@ -257,7 +257,12 @@ def parse_version_info(version_str: str, raw_pattern: str = "{pycalver}") -> ver
         )
         raise version.PatternError(err_msg)
     else:
-        return _parse_version_info(match.groupdict())
+        try:
+            return _parse_version_info(match.groupdict())
+        except ValueError as ex:
+            # e.g. "2021.02.30": matches the pattern but is not a date
+            err_msg = f"Invalid date in version string '{version_str}': {ex}"
+            raise version.PatternError(err_msg) from ex
 
 
 def is_valid(version_str: str, raw_pattern: str = "{pycalver}") -> bool:
